@@ -13,7 +13,7 @@ import struct
 class Fn:
     __slots__ = ("d", "id", "stable", "kind", "parent", "loc", "blocks", "locals", "argc",
                  "unit", "names", "debug", "_calls", "crate", "witnesses", "unsafe_block",
-                 "unsafe_fn", "pretty", "vis", "upvar_names")
+                 "unsafe_fn", "pretty", "vis", "upvar_names", "promoted")
 
     def __init__(self, d, unit):
         self.d = d
@@ -30,6 +30,7 @@ class Fn:
         self.crate = unit.crate
         self.debug = d["debug"]
         self.witnesses = d.get("witnesses")
+        self.promoted = d.get("promoted", [])
         self.unsafe_block = d["unsafe_block"]
         self.unsafe_fn = d["unsafe_fn"]
         self.vis = d["vis"]
@@ -168,3 +169,31 @@ def load_worlds(facts_dir, with_sim=True):
     if with_sim and os.path.exists(p("network_sim-lib")):
         units_lib.append(Unit(p("network_sim-lib")))
     return [World("lib", units_lib), World("bin", [binu, core, proto])]
+
+
+class PromotedFn:
+    """A promoted constant body dressed up as a function (straight-line, no parameters)."""
+
+    def __init__(self, owner, idx):
+        d = owner.promoted[idx]
+        self.id = "%s::{promoted#%d}" % (owner.id, idx)
+        self.stable = "%s::{promoted#%d}" % (owner.stable, idx)
+        self.kind = "promoted"
+        self.parent = owner.id
+        self.loc = owner.loc
+        self.blocks = d["blocks"]
+        self.locals = d["locals"]
+        self.argc = 0
+        self.unit = owner.unit
+        self.crate = owner.crate
+        self.names = {}
+        self.debug = []
+        self.upvar_names = {}
+        self.unsafe_block = False
+        self.unsafe_fn = False
+        self.promoted = []
+        self._calls = None
+
+    calls = Fn.calls
+    local_ty = Fn.local_ty
+    name_of = Fn.name_of
